@@ -41,7 +41,7 @@ func (c *Ctx) guardedField(rule, pkgRel, typ, field, lockPath string, exempt map
 				}
 				n++
 				key := fmtf("%s|%s.%s", c.name(f), typ, field)
-				if why, ok := exempt[topFn(f).Name()]; ok {
+				if why, ok := exempt[engine.ShortName(topFn(f))]; ok {
 					R.Pass(rule, key, P.Pos(fa.Pos()), "exempt: "+why)
 					continue
 				}
@@ -248,7 +248,7 @@ func c02(c *Ctx) {
 				if cc.IsInvoke() {
 					nm = cc.Method.Name()
 				} else if sc := cc.StaticCallee(); sc != nil {
-					nm = sc.Name()
+					nm = engine.ShortName(sc)
 				}
 				if nm != "QueueOrApplyStateUpdate" && nm != "queueStateUpdate" {
 					continue
@@ -496,7 +496,7 @@ func c02filters(c *Ctx) {
 	R.Table("R02.3 pending-aware membership functions (derived)", rows...)
 	n := 0
 	for _, f := range c.funcsInPkg("internal/state") {
-		if f.Name() != "Filter" || f.Signature.Recv() == nil {
+		if engine.ShortName(f) != "Filter" || f.Signature.Recv() == nil {
 			continue
 		}
 		if f.Signature.Params().Len() != 1 || !engine.IsNamed(f.Signature.Params().At(0).Type(), "internal/state", "State") {
@@ -511,7 +511,7 @@ func c02filters(c *Ctx) {
 				continue
 			}
 			switch {
-			case sc == hasMsg || sc.Name() == "HasMessage" || (sc.Name() == "has" && engine.RecvNamed(sc) != nil && engine.RecvNamed(sc).Obj().Name() == "snapMsgList"):
+			case sc == hasMsg || engine.ShortName(sc) == "HasMessage" || (engine.ShortName(sc) == "has" && engine.RecvNamed(sc) != nil && engine.RecvNamed(sc).Obj().Name() == "snapMsgList"):
 				bad = c.name(sc)
 				consults = true
 			case aware[sc]:
